@@ -14,7 +14,9 @@ from lib.engine import R, V, custom_part
 ID = 'C18'
 RULE = ('every definition (class attribute or helper function) of every generated resource module listed in the five '
         'resource-definitions.json files; one case per (module, definition) plus one per module header; non-trivial = definition whose '
-        'value is not a plain literal constant (interpolated regex f-string, dictionary, list, function); distinct = (module, name)')
+        'value is not a plain literal constant (interpolated regex f-string, dictionary, list, function); distinct = (module, name); '
+        'also: every banner-carrying module under resources/ must have a definition entry, and the independent YAML comparison is repeated on the '
+        'imported resource objects AFTER every registered model of every culture was built and used (shared class-level data must stay as defined)')
 ASSUMPTIONS = ['vendor/ruamel (pure-Python ruamel.yaml 0.18.16) parses the YAML like the generator\'s pinned dependency',
                'pattern file names are resolved case-insensitively (Base-Hashtag/Base-Url), as on the file systems the generator was written for']
 
@@ -134,9 +136,55 @@ def replay(case):
         shutil.rmtree(scratch, ignore_errors=True)
 
 
+def run_module_coverage(ctx):
+    """every module under <package>/resources/ that carries the generator's banner must be the output of a resource-definition entry
+    (a module without one is never regenerated and never compared, whatever is edited into it)"""
+    import glob
+    import json as _json
+    for pkg in resgen.PACKAGES:
+        libs = os.path.join(env.LIBS, pkg)
+        with open(os.path.join(libs, 'resource-definitions.json'), encoding='utf-8') as f:
+            spec = _json.load(f)
+        out_dir = os.path.normpath(os.path.join(libs, spec['outputPath']))
+        listed = {cfg['output'] for cfg in spec['configFiles']}
+        for path in sorted(glob.glob(os.path.join(out_dir, '*.py'))):
+            mod = os.path.basename(path)[:-3]
+            if mod == '__init__':
+                continue
+            with open(path, encoding='utf-8') as f:
+                head = f.read(600)
+            banner = '<auto-generated>' in head
+            case = {'module': '%s/%s' % (pkg, mod), 'name': None, 'oracle': 'module-coverage'}
+
+            def fn(case, banner=banner, mod=mod, listed=listed, pkg=pkg):
+                vs = []
+                if banner and mod not in listed:
+                    vs.append(V('GENERATED_MODULE_WITHOUT_DEFINITION', {'module': case['module']}, sig=[case['module'], 'coverage'], bucket='COVERAGE'))
+                return R(vs, nontrivial=banner, labels=['coverage:' + pkg], obs={'banner': banner, 'listed': mod in listed}, key=[case['module'], 'coverage'])
+            new, r = ctx.process(case, fn=fn)
+            for v in new:
+                ctx.add_violation(case, v, r.obs)
+
+
+def replay_any(case):
+    if case.get('oracle') == 'module-coverage':
+        import json as _json
+        pkg, mod = case['module'].split('/')
+        with open(os.path.join(env.LIBS, pkg, 'resource-definitions.json'), encoding='utf-8') as f:
+            spec = _json.load(f)
+        ok = mod in {cfg['output'] for cfg in spec['configFiles']}
+        return R([] if ok else [V('GENERATED_MODULE_WITHOUT_DEFINITION', {'module': case['module']}, sig=[case['module'], 'coverage'])], nontrivial=True)
+    if case.get('oracle') == 'independent-yaml-reading-after-model-build':
+        build_and_use_all_models()
+        return replay_independent(case)
+    return replay(case)
+
+
 def parts(tier, seed):
-    return [custom_part('generator-differential', run, exhaustive=True, replay=replay),
-            custom_part('independent-yaml-reading', run_independent, exhaustive=True, replay=replay)]
+    return [custom_part('generator-differential', run, exhaustive=True, replay=replay_any),
+            custom_part('independent-yaml-reading', run_independent, exhaustive=True, replay=replay_any),
+            custom_part('generated-module-coverage', run_module_coverage, exhaustive=True, replay=replay_any),
+            custom_part('independent-yaml-reading-after-model-build', run_independent_after_build, exhaustive=True, replay=replay_any)]
 
 
 # ---- second oracle: an independent reading of the YAML, compared with the EVALUATED module values -------------------------
@@ -175,6 +223,10 @@ _CLASS_YAML = {}
 _EXPECTED = {}
 
 
+class UnknownResourceClass(Exception):
+    """a pattern file refers to a class (BaseURL.ProtocolRegex) for which no resource-definition entry exists any more"""
+
+
 def class_yaml_registry():
     import json as _json
     if _CLASS_YAML:
@@ -196,7 +248,7 @@ def _lookup(out, ref, yaml_path, name, aliases=None):
         cls = (aliases or {}).get(cls, cls)
         reg = class_yaml_registry()
         if cls not in reg:
-            raise env.HarnessError('%s: reference %s of %s names an unknown class' % (yaml_path, ref, name))
+            raise UnknownResourceClass('%s: reference %s of %s names a class that no resource definition produces' % (yaml_path, ref, name))
         other = expected_values(reg[cls])
         if attr not in other or other[attr][0] != 'value':
             raise env.HarnessError('%s: reference %s of %s is not a value' % (yaml_path, ref, name))
@@ -309,7 +361,36 @@ def replay_independent(case):
     raise env.HarnessError('module %s not in resource definitions' % case['module'])
 
 
-def run_independent(ctx):
+QUERIES_AFTER_BUILD = {
+    'en-us': ['twenty one dollars on May 5th at 3pm, 50% of 3 km', 'call 206 555 0100 or see http://example.com #tag @me a@b.co 10.0.0.1 yes'],
+    'es-es': ['veintiuno euros el 5 de mayo a las 3, 50% de 3 km'], 'es-mx': ['veintiuno pesos el 5 de mayo, 12.5%'],
+    'fr-fr': ['vingt et un euros le 5 mai à 15h, 50% de 3 km'], 'pt-br': ['vinte e um reais em 5 de maio às 3, 50% de 3 km'],
+    'de-de': ['einundzwanzig euro am 5. mai um 3 uhr, 50% von 3 km'], 'it-it': ['ventuno euro il 5 maggio alle 3, 50% di 3 km'],
+    'nl-nl': ['eenentwintig euro op 5 mei om 3 uur, 50% van 3 km, de 1e mei'], 'zh-cn': ['二十一元 五月五日 下午三点 百分之五十 3公里'],
+    'ja-jp': ['二十一円 五月五日 3キロ'],
+}
+
+
+def build_and_use_all_models():
+    """construct every registered model of every culture and run a sentence through each (the resource objects are shared, class-level
+    data: building or using a model must leave them as the YAML defines them)"""
+    from gens import allmodels
+    for c in allmodels.CULTURES:
+        for q in QUERIES_AFTER_BUILD.get(c, []):
+            allmodels.run_all(c, q)
+    from recognizers_date_time import DateTimeRecognizer, DateTimeOptions
+    import datetime as _dt
+    for c in ('en-us', 'nl-nl', 'fr-fr', 'es-es', 'pt-br', 'de-de', 'it-it', 'zh-cn'):
+        for o in (DateTimeOptions.SPLIT_DATE_AND_TIME, DateTimeOptions.CALENDAR):
+            DateTimeRecognizer(c, o).get_datetime_model().parse(QUERIES_AFTER_BUILD[c][0], _dt.datetime(2016, 11, 7, 12))
+
+
+def run_independent_after_build(ctx):
+    build_and_use_all_models()
+    return run_independent(ctx, suffix='-after-model-build')
+
+
+def run_independent(ctx, suffix=''):
     import importlib
     import json as _json
     for pkg in resgen.PACKAGES:
@@ -329,9 +410,15 @@ def run_independent(ctx):
                 mm = _re_alias.match(h)
                 if mm:
                     aliases[mm.group(2)] = mm.group(1)
-            exp = expected_values(ypath, aliases)
+            try:
+                exp = expected_values(ypath, aliases)
+            except UnknownResourceClass as ex:
+                case = {'module': rel, 'name': None, 'oracle': 'independent-yaml-reading'}
+                ctx.add_violation(case, V('REFERENCE_TO_CLASS_WITHOUT_DEFINITION', {'module': rel, 'error': str(ex)}, sig=[rel, 'unknown-class'],
+                                          bucket='UNKNOWN_CLASS'))
+                continue
             for name, e in exp.items():
-                case = {'module': rel, 'name': name, 'oracle': 'independent-yaml-reading'}
+                case = {'module': rel, 'name': name, 'oracle': 'independent-yaml-reading' + suffix}
 
                 def fn(case, name=name, e=e, cls=cls, rel=rel):
                     vs = []
@@ -360,7 +447,7 @@ def run_independent(ctx):
                                 vs.append(V('FUNCTION_DIFFERS_FROM_YAML', {'module': rel, 'name': name, 'yaml_says': want[:300], 'module_gives': str(res)[:300]},
                                             sig=[rel, name, 'value'], bucket='VALUE:' + rel))
                     return R(vs, nontrivial=e[0] == 'func' or not isinstance(e[1], (str, bool, int, float)) or '{' in str(e[1]),
-                             labels=['independent:' + pkg], obs={'kind': e[0]}, key=[rel, name, 'value'])
+                             labels=['independent%s:%s' % (suffix, pkg)], obs={'kind': e[0]}, key=[rel, name, 'value' + suffix])
                 new, r = ctx.process(case, fn=fn)
                 for v in new:
                     if ctx.stats.vcount.get(v.bucket, 0) < 3:
